@@ -124,11 +124,36 @@ var v6DeepShrex = map[string]bool{"honest": true, "other:0": true, "othersq": tr
 	"gshare": true, "nf": true, "internal": true, "ratelimit": true, "hang": true, "dialfail": true}
 var v6DeepBs = map[string]bool{"honest": true, "forged-other": true, "othersq": true, "garbage": true, "silent": true, "ext": true}
 
+// v6Core: the answers a transfer that dies midway is combined with where the full product is too large
+// (quick tier at length 2, thorough at length 3): the honest peer that must still succeed afterwards, a
+// decodable wrong answer, a refusal, silence.
+var v6Core = map[string]bool{"honest": true, "othersq": true, "nf": true, "hang": true}
+
+// v6KeepPartialSeq: a sequence that contains pr:*/ph:* answers is kept iff all its other answers are in others.
+func v6KeepPartialSeq(seq []string, others map[string]bool) bool {
+	hasPart := false
+	for _, a := range seq {
+		if _, p := v6PartialOf(a); p {
+			hasPart = true
+		}
+	}
+	if !hasPart {
+		return true
+	}
+	for _, a := range seq {
+		if _, p := v6PartialOf(a); !p && !others[a] {
+			return false
+		}
+	}
+	return true
+}
+
 func v6Filter(alpha []string, keep map[string]bool) []string {
 	var out []string
 	for _, a := range alpha {
 		k, _, _ := v6ParseBsPeer(a)
-		if keep[a] || keep[k] {
+		_, part := v6PartialOf(a)
+		if keep[a] || keep[k] || part {
 			out = append(out, a)
 		}
 	}
@@ -165,6 +190,12 @@ func v6Phases(sqs []*v6Square, b v6Bounds) []v6Phase {
 					for _, seq := range v6Seqs(alpha, maxLen, v6ShrexTerminal) {
 						if len(seq) != maxLen {
 							continue // shorter sequences belong to the earlier phases
+						}
+						switch {
+						case !b.thorough && maxLen >= 2 && !v6KeepPartialSeq(seq, v6Core):
+							continue
+						case maxLen >= 3 && !v6KeepPartialSeq(seq, v6DeepShrex):
+							continue
 						}
 						extra := []string{"d5m0.5s"}
 						if b.thorough && maxLen < 3 {
@@ -246,6 +277,9 @@ func v6Phases(sqs []*v6Square, b v6Bounds) []v6Phase {
 						}
 						for _, seq := range v6Seqs(alpha, maxLen, v6ShrexTerminal) {
 							if len(seq) != maxLen {
+								continue
+							}
+							if maxLen >= 2 && !v6KeepPartialSeq(seq, v6DeepShrex) {
 								continue
 							}
 							seq2s := [][]string{nil}
